@@ -263,6 +263,16 @@ impl World for RWorld {
                 let d: Vec<String> = d.iter().map(|x| x.to_string()).collect();
                 format!("ids [{}] disc [{}]", a.join(","), d.join(","))
             }
+            // server-side query API: has_connections, connected_clients, is_connected(id), disconnect_reason(id)
+            "sq" if t.len() == 2 => {
+                let id = num!(t[1], u64);
+                let s = srv!();
+                let reason = match s.disconnect_reason(id) {
+                    None => "none".to_string(),
+                    Some(r) => reason_str(&r),
+                };
+                format!("has={} n={} is={} reason={}", s.has_connections(), s.connected_clients(), s.is_connected(id), reason)
+            }
             "send" if t.len() == 4 => {
                 let ch = num!(t[2], u8);
                 let m = match unhex(t[3]) {
